@@ -74,6 +74,22 @@ Fixpoint lookup_pass (can : list Z) (ts : luts) : list Z * Z :=
       (fin, if used then n + 1 else n)
   end.
 
+(* a key is writable if any of its occurrences is (the payer always is) *)
+Definition writable_key (payer : Z) (l : list ix) (k : Z) : bool :=
+  (k =? payer) || existsb (fun i => existsb (fun a => (k_key a =? k) && k_writable a) (i_accs i)) l.
+
+(* per used table: its key and the two compact-u16 lengths of its writable / readonly index lists *)
+Fixpoint est_tables (payer : Z) (l : list ix) (can : list Z) (ts : luts) : Z :=
+  match ts with
+  | [] => 0
+  | (_, addrs) :: r =>
+      let taken := filter (fun k => memz k addrs) can in
+      let can' := filter (fun k => negb (memz k addrs)) can in
+      let nw := lenZ (filter (writable_key payer l) taken) in
+      let nr := lenZ taken - nw in
+      (match taken with [] => 0 | _ => 32 + c16 nw + c16 nr end) + est_tables payer l can' r
+  end.
+
 Definition estimate (payer : Z) (l : list ix) (ts : luts) : Z :=
   let programs := programs_of l in
   let accounts := accounts_of payer l in
@@ -84,7 +100,7 @@ Definition estimate (payer : Z) (l : list ix) (ts : luts) : Z :=
   let lookups := lenZ accounts - lenZ accounts' in
   c16 (lenZ signers) + lenZ signers * 64 + 3 + c16 (lenZ accounts') + lenZ accounts' * 32 + 32
   + c16 (lenZ l) + ixs_size l + lookups
-  + 1 + c16 0 + tables * (32 + 2).
+  + 1 + c16 tables + est_tables payer l can ts.
 
 (* AtomicGroup::transaction_size(true, Some(luts), options) *)
 Definition group_size (with_cb : bool) (memo : option Z) (ts : luts) (g : ag) : Z :=
@@ -94,10 +110,6 @@ Definition merged_size (memo : option Z) (ts : luts) (x y : ag) : Z :=
   estimate (a_payer x) (ixs_with_options true memo x ++ ixs_with_options false None y) ts.
 
 (* ---------- the serialized size (hand model of solana-sdk) ---------- *)
-(* a key is writable if any of its occurrences is (the payer always is) *)
-Definition writable_key (payer : Z) (l : list ix) (k : Z) : bool :=
-  (k =? payer) || existsb (fun i => existsb (fun a => (k_key a =? k) && k_writable a) (i_accs i)) l.
-
 (* per table: the drained keys split into writable / readonly; unused tables are left out *)
 Fixpoint real_tables (payer : Z) (l : list ix) (can : list Z) (ts : luts) : Z :=
   match ts with
@@ -187,9 +199,10 @@ Definition tg_optimize (o : opts) (ts : luts) (allow : bool) (tg : list pg) : li
   if merged then filter (fun p => negb (pg_empty p)) l else l.
 
 (* ---------- adding ---------- *)
-(* TransactionGroup::validate_one: default GetInstructionsOptions = compute budget, NO memo *)
+(* TransactionGroup::validate_one: measured with instruction_options(&Default::default()), i.e.
+   compute budget AND the configured memo — the options the transaction is built with *)
 Definition validate_one (o : opts) (ts : luts) (g : ag) : bool :=
-  (ag_len g <=? o_max_ix o) && (group_size true None ts g <=? o_max_size o).
+  (ag_len g <=? o_max_ix o) && (group_size true (o_memo o) ts g <=? o_max_size o).
 
 (* TransactionGroup::add: (new group list, accepted) *)
 Definition tg_add (o : opts) (ts : luts) (tg : list pg) (p : pg) : list pg * bool :=
